@@ -58,7 +58,7 @@ def crash_signature(prop, crash):
 
 
 LADDER_STREAMS = ["ladder-list", "ladder-dict", "ladder-grid", "ladder-list-in-dict", "ladder-gridmeta", "ladder-xstr-paren",
-                  "ladder-json-list", "ladder-json-dict", "ladder-json-grid", "ladder-paren", "ladder-paren-and", "ladder-not-paren", "ladder-paren-sibling", "ladder-paren-sibling2"]
+                  "ladder-json-list", "ladder-json-dict", "ladder-json-grid", "ladder-paren", "ladder-paren-and", "ladder-not-paren", "ladder-paren-sibling", "ladder-paren-sibling2", "ladder-runs"]
 
 WELLFORMED = ("well-formed values only (C01 clause): identifier tag/column names, Ref/Symbol bodies over the id alphabet, "
               "Symbols start with a lower-case letter, XStr types [A-Z][A-Za-z0-9_]* except the literal 'C', Uris without "
@@ -147,7 +147,7 @@ PROPS = {
         "thorough": [phase(16, 6.0, 1500)],
         "rule": ("cases = the C01 generator's model values; for each, (A) the spec-derived reference writer (harness/src/refzinc.rs) produces a "
                  "random legal spelling (space after commas, trailing list comma, space- or comma-separated dict tags, k vs k:M, exponent "
-                 "/ '_' / trailing-.0 number spellings, \\uXXXX (either hex case) and \\b \\f escapes, LF vs CRLF, 'Z' vs 'Z UTC', numeric "
+                 "/ '_' (integer, fraction and exponent digits) / trailing-.0 number spellings, blanks before commas and inside brackets, \\uXXXX (either hex case) and \\b \\f escapes, LF vs CRLF, 'Z' vs 'Z UTC', numeric "
                  "zero offset, fraction trailing zeros, '<<' with or without newline, trailing blank line) and libhaystack must decode it to "
                  "the value; (B) libhaystack's own text must be accepted by the strict reference reader and denote the value. Reference "
                  "writer and reader are first checked against each other (a disagreement is a harness error = inconclusive)"),
@@ -163,7 +163,7 @@ PROPS = {
         "min_evals": {"quick": 50_000, "thorough": 1_000_000},
     },
     "C03": {
-        "quick": [phase(16, 3.0, 120)],
+        "quick": [phase(16, 3.0, 120), phase(1, 1.0, 120, flavour="dev", streams=LADDER_STREAMS)],
         "thorough": [phase(16, 3.0, 1500),
                      phase(1, 1.0, 300, flavour="release", streams=LADDER_STREAMS),
                      phase(1, 1.0, 300, flavour="dev", streams=LADDER_STREAMS),
@@ -173,7 +173,8 @@ PROPS = {
                  "1,10,100,127,128,129,1e3,1e4,1e5, closed and unclosed; slices of the shipped corpus files with their prefixes and "
                  "mutants; grammar-generated Zinc documents (reference writer, random spellings) with every prefix (thorough; 48 sampled "
                  "in quick) and 24 stacked-mutation mutants each (bit flip, byte replace/insert/delete/swap, range duplicate/delete, token "
-                 "splice, truncate, comma insert/delete, terminator delete); Hayson documents with prefixes and mutants; random bytes, "
+                 "splice, truncate, comma insert/delete, terminator delete); every \\uXXXX escape (all 65,536 code units) in Str, Uri, Ref "
+                 "dis, XStr, a grid cell and Hayson; Hayson documents (library's and reference writer's spelling) with prefixes and mutants; random bytes, "
                  "printable noise and token soup. Each text goes through zinc::from_str, Parser::make(reader).parse_value and the lazy "
                  "parse_grid_iterator (drained) over a hostile reader (chunks of 1/2/7/random/whole, Interrupted on every other call, "
                  "sticky I/O error at a random offset), or serde_json::from_str/from_slice::<Value>. oracle = returned Ok or Err; a panic "
@@ -182,12 +183,12 @@ PROPS = {
         "assumptions": ["'terminates' is restated as: finishes within 16*len+512 steps counted by hook H1 (Scanner::read, both Lexer::read, and every while/loop iteration of the Zinc and filter decoders) "
                         "(observed maximum is reported as max_ticks_per_byte); loops that do not pass through those functions would only "
                         "be seen by the wall-clock watchdog, which yields inconclusive, not a verdict",
-                        "stack exhaustion depends on the build profile: quick uses the monitoring profile, thorough repeats the ladders in "
-                        "plain release and dev builds"],
+                        "stack exhaustion depends on the build profile: quick runs the ladders in the monitoring profile and in the stock dev "
+                        "profile (largest frames, no tail-call elimination), thorough additionally in plain release"],
         "require_strata": {"both": ["outcome:from_str:ok", "outcome:from_str:err", "outcome:reader:ok", "outcome:reader:err", "outcome:lazy:ok",
                                     "outcome:lazy:err", "outcome:json_slice:ok", "outcome:json_slice:err", "ladder-list:depth100000",
                                     "ladder-grid:depth100000", "ladder-json-list:depth100000", "prefix", "mutant", "corpus-mutant",
-                                    "mutation:token-splice", "mutation:comma-insert", "mutation:terminator-delete", "bytes"]},
+                                    "mutation:token-splice", "mutation:comma-insert", "mutation:terminator-delete", "bytes", "unicode-escape"]},
         "min_evals": {"quick": 300_000, "thorough": 10_000_000},
     },
     "C07": {
@@ -225,16 +226,17 @@ PROPS = {
         "min_evals": {"quick": 150_000, "thorough": 3_000_000},
     },
     "C09": {
-        "quick": [phase(16, 3.0, 120)],
+        "quick": [phase(16, 3.0, 120), phase(1, 1.0, 120, flavour="dev", streams=LADDER_STREAMS)],
         "thorough": [phase(16, 3.0, 1500),
                      phase(1, 1.0, 300, flavour="release", streams=LADDER_STREAMS),
                      phase(1, 1.0, 300, flavour="dev", streams=LADDER_STREAMS)],
         "crash_is_violation": True,
-        "rule": ("cases = filter texts: parenthesis ladders '(', '(a and ', '(not a or ' at depths 1..1e5 closed and unclosed; valid filters "
+        "rule": ("cases = filter texts: parenthesis ladders '(', '(a and ', '(not a or ', and with closed sibling groups '((a) and ', "
+                 "'((a or (b)) and (c) and ' at depths 1..1e5 closed and unclosed; valid filters "
                  "(reference printer) with every prefix (thorough; 24 sampled in quick) and 24 stacked-mutation mutants each; operators "
-                 "without operands, token soup, raw bytes; relationship terms. Filter::try_from runs under the panic/abort/fuel monitor "
+                 "without operands, token soup (incl. form feed, VT, NUL), raw bytes; relationship and '*==' terms. Filter::try_from runs under the panic/abort/fuel monitor "
                  "(16*len+512 decoder steps, confirmed at 1000x). Every filter that parses is evaluated on a record of a 5-record world "
-                 "whose ref tags form cycles and self-loops, through Dict::filter and through EvalContext over the real defs namespace "
+                 "whose ref tags form cycles and self-loops and where a ref may resolve to an EMPTY record, through Dict::filter and through EvalContext over the real defs namespace "
                  "(tests/defs/defs.zinc) with a resolver that aborts the evaluation if asked more than 40 times (4*(records+1)+16)"),
         "assumptions": ["termination restated as bounded steps: lexer fuel for parsing, resolver-call cap for evaluation; a loop that touches "
                         "neither is only seen by the wall-clock watchdog (inconclusive)"],
@@ -340,11 +342,15 @@ PROPS = {
                  "1/2/7/random/whole, Interrupted on every other call) must give the value (or the rejection) from_str gives, and the lazy "
                  "row iterator the rows parse_grid gives, in order; (3) laziness: generated grids with rows >= 64 bytes read one byte at a "
                  "time through a counting reader: when row i is handed out the reader has been asked for no more than the end of row i + "
-                 "the first token of row i+1 + 16 bytes of lexer look-ahead. distinct = distinct accepted texts"),
+                 "the first token of row i+1 + 16 bytes of lexer look-ahead. Also (4) texts no well-formed value produces: the encoders' "
+                 "output for constructible ill-formed values (C10's generator) and reference-writer Hayson for relaxed values (non-finite "
+                 "numbers with units, arbitrary Ref/Symbol/XStr-type/key strings, Uris with controls, duplicate columns), and the reference "
+                 "Hayson writer's spellings of well-formed values. distinct = distinct accepted texts"),
         "assumptions": ["the grid's 'ver' field (version of the text it was read from) is not part of the value", 
                         "the 16-byte look-ahead slack: the scanner holds one byte, the number/date splitter peeks up to 9 (observed maximum reported)"],
         "require_strata": {"both": ["zinc:grammar:accepted", "zinc:mutant:accepted", "zinc:corpus:accepted", "hayson:hayson:accepted", "hayson:mutant:accepted",
-                                    "stream-vs-buffer", "lazy-vs-eager", "laziness", "reader:One", "reader:Random"]},
+                                    "stream-vs-buffer", "lazy-vs-eager", "laziness", "reader:One", "reader:Random", "hayson:liberal:accepted", "hayson:illformed:accepted",
+                                    "zinc:illformed:accepted", "hayson:hayson-ref:accepted"]},
         "min_evals": {"quick": 200_000, "thorough": 5_000_000},
     },
     "C20": {
@@ -387,7 +393,8 @@ PROPS = {
         "rule": ("cases = random histories of C API calls (quick 16x130 histories of 60 calls, thorough 16x1250 of 200) over a pool of "
                  "handles, every extern fn: make/is/get for every kind, push/get/set/remove/len on lists, insert/get/remove/keys/len on "
                  "dicts, grid from rows (with meta)/len/row_at, to/from Zinc and JSON, filter parse/match_dict/first_match/match_all, "
-                 "utc/tz datetime constructors and getters, destroy; arguments valid / wrong kind / out of range / null / non-UTF-8 / "
+                 "utc/tz datetime constructors and getters, destroy, result holders that are fresh or already own data, borrowed entry "
+                 "pointers passed back as entries, a failure left unread followed by another failure; arguments valid / wrong kind / out of range / null / non-UTF-8 / "
                  "invalid text. Every handle is mirrored by a harness-side Value on which the corresponding Rust operation is applied. "
                  "After each call: the return value equals the model's; on failure the documented sentinel (None/null, usize::MAX, "
                  "u32::MAX, NaN, ERR) AND a non-null last_error_message() that is cleared by reading it; on success no stale error; all "
